@@ -133,4 +133,15 @@ theorem intoBytes_eq (s : State) (b : Bool) (cs : List Char) (h : Holds s cs) : 
   obtain ⟨s', hs, hh, _⟩ := shrinkTo_spec s 0 b cs h
   rw [hs]; exact hh.2
 
+/-- `clone()`: a new string holding the same characters in exactly `len` bytes -/
+theorem cloneStr_spec (s : State) (cs : List Char) (h : Holds s cs) :
+    Holds (cloneStr s) cs ∧ (cloneStr s).cap = s.len ∧ (cloneStr s).len = s.len := by
+  have hl := bytes_length h.1
+  refine ⟨⟨?_, ?_⟩, ?_, rfl⟩
+  · unfold WFL cloneStr; simp only; omega
+  · rw [← h.2]
+    unfold cloneStr
+    simp only [State.bytes, List.take_take, Nat.min_self]
+  · simp only [cloneStr, State.cap]; exact hl
+
 end Str
